@@ -62,6 +62,15 @@ def analyse(obs: Obs, prog):
         inst = f"{hname}.handle_trace"
         env = r.env
         ret = r.ret
+        everything = ("tuple", tuple(x for x in [ret, env.get("self.traces"), env.get("self.weight"), env.get("self.score")] + list(env.get("__effects__", [])) if isinstance(x, tuple)))
+        # ---- yield_state layout (needed later even when this handler's obligations fail)
+        ys = ev.eval_fn(H.methods["yield_state"], H.module, H)
+        lay = {}
+        items = ys.ret[1] if is_t(ys.ret, "tuple") else [ys.ret]
+        for i, t in enumerate(items):
+            if is_t(t, "attr") and t[1] == SELF:
+                lay[t[2]] = i
+        ys_index[hname] = (lay, is_t(ys.ret, "tuple"))
         # ---- key discipline
         if kind != "assess":
             keyt = ("call", G("jax.random.fold_in"), (sattr("key"), sattr("key_counter")), ())
@@ -74,18 +83,18 @@ def analyse(obs: Obs, prog):
             obs.add({"C04"}, "KEY-COUNTER", f"{hname}.__init__", k0 == P("key") and is_t(c0, "const") and isinstance(c0[1], int), derived=f"key={show(k0)} counter={show(c0)}", expected="self.key = key; integer counter", where=W(H, "__init__"))
         # ---- the callee call
         if kind == "simulate":
-            callee = [c for c in mcalls(ret, "simulate") if c[1][1] == GEN]
+            callee = [c for c in mcalls(everything, "simulate") if c[1][1] == GEN]
             want_args = (keyt, ARGS)
         elif kind == "assess":
-            callee = [c for c in mcalls(ret, "assess") if c[1][1] == GEN]
+            callee = [c for c in mcalls(everything, "assess") if c[1][1] == GEN]
             sub = ("call", sattr("choice_map_sample"), (ADDR,), ())
             want_args = (sub, ARGS)
         elif kind == "generate":
-            callee = [c for c in mcalls(ret, "generate") if c[1][1] == GEN]
+            callee = [c for c in mcalls(everything, "generate") if c[1][1] == GEN]
             sub = ("call", sattr("choice_map"), (ADDR,), ())
             want_args = (keyt, sub, ARGS)
         else:
-            callee = [c for c in mcalls(ret, "edit")]
+            callee = [c for c in mcalls(everything, "edit")]
             if kind == "update":
                 prev = ("call", ("attr", sattr("previous_trace"), "get_inner_trace"), (ADDR,), ())
                 req = ("ctor", "Update", (("call", sattr("constraint"), (ADDR,), ()),), ())
@@ -142,14 +151,6 @@ def analyse(obs: Obs, prog):
                 want = ("attr", mk_proj(cal, 3), "constraint") if kind == "update" else mk_proj(cal, 3)
                 app = [e for e in eff if is_mcall(e, "append") and e[1][1] == sattr(fld)]
                 obs.add({"C06"} | props_k, "BWD-OLDVALUES", inst + "/bwd", len(app) == 1 and app[0][2] == (want,), derived=f"{[show(a) for a in app]}", expected=f"self.{fld}.append(<this site's backward request{'.constraint' if kind == 'update' else ''}>) once", where=w)
-        # ---- yield_state layout
-        ys = ev.eval_fn(H.methods["yield_state"], H.module, H)
-        lay = {}
-        items = ys.ret[1] if is_t(ys.ret, "tuple") else [ys.ret]
-        for i, t in enumerate(items):
-            if is_t(t, "attr") and t[1] == SELF:
-                lay[t[2]] = i
-        ys_index[hname] = (lay, is_t(ys.ret, "tuple"))
         # ---- initial accumulators are zero
         if kind != "simulate":
             init = ev.eval_fn(H.methods["__init__"], H.module, H)
